@@ -825,6 +825,8 @@ def main(pid, tier, repo=None):
     rule_auxbox(ctx)
     from . import c09
     c09.rule_refeed(ctx)
+    from . import fixguards
+    fixguards.run(ctx, pid)
     specconst.run(ctx, pid)
     ctx.not_decided("byte-exact reassembly and payload delivery (value-level); Brotli decompression")
     return ctx.finish(
